@@ -547,15 +547,13 @@ void NifFile::SortGraph(NiNode* root, SortState& sortState) {
 
 			if (isRootNode) {
 				// Reorder shapes on root node if order is provided
-				if (sortState.rootShapeOrder.size() == shapeIndices.size()) {
-					std::vector<uint32_t> newShapeIndices(shapeIndices.size());
-					for (size_t si = 0; si < sortState.rootShapeOrder.size(); si++) {
-						auto it = find(shapeIndices, sortState.rootShapeOrder[si]);
-						if (it != shapeIndices.end())
-							newShapeIndices[si] = shapeIndices[std::distance(shapeIndices.begin(), it)];
-					}
-					shapeIndices = newShapeIndices;
-				}
+				// (only if it names each of the shapes exactly once; duplicate or unknown names
+				// would otherwise list a shape twice, drop another or insert block 0)
+				if (sortState.rootShapeOrder.size() == shapeIndices.size()
+					&& std::is_permutation(sortState.rootShapeOrder.begin(),
+										   sortState.rootShapeOrder.end(),
+										   shapeIndices.begin()))
+					shapeIndices = sortState.rootShapeOrder;
 			}
 
 			for (auto& index : shapeIndices) {
@@ -588,15 +586,13 @@ void NifFile::SortGraph(NiNode* root, SortState& sortState) {
 
 			if (isRootNode) {
 				// Reorder shapes on root node if order is provided
-				if (sortState.rootShapeOrder.size() == shapeIndices.size()) {
-					std::vector<uint32_t> newShapeIndices(shapeIndices.size());
-					for (size_t si = 0; si < sortState.rootShapeOrder.size(); si++) {
-						auto it = find(shapeIndices, sortState.rootShapeOrder[si]);
-						if (it != shapeIndices.end())
-							newShapeIndices[si] = shapeIndices[std::distance(shapeIndices.begin(), it)];
-					}
-					shapeIndices = newShapeIndices;
-				}
+				// (only if it names each of the shapes exactly once; duplicate or unknown names
+				// would otherwise list a shape twice, drop another or insert block 0)
+				if (sortState.rootShapeOrder.size() == shapeIndices.size()
+					&& std::is_permutation(sortState.rootShapeOrder.begin(),
+										   sortState.rootShapeOrder.end(),
+										   shapeIndices.begin()))
+					shapeIndices = sortState.rootShapeOrder;
 			}
 
 			for (auto& index : shapeIndices) {
